@@ -887,6 +887,92 @@ def stat_listing_stage(tools, work, rep, ev, rng):
     return n
 
 
+def pack_dir_stage(tools, work, rep, ev, tier):
+    """spec/PackDir.tla: --pack-dir under every combination of -k, --all-root / --set-uid, --set-gid, -H, -x, -o, --defaults mtime= / uid=
+    on a fixed source tree (file with xattr + second name in a sub directory, directory, symlink; distinct owners, time 5000): the
+    image decoded independently must be the specified tree.  Needs root (chown, trusted file system attributes)."""
+    cfg = work + "/pd.cfg"
+    C = {"Emit": False, "KeepTimeAppliesToRoot": False, "ForcedOwnerSkipsRoot": False}
+    write_cfg(cfg, spec="Spec", constants=C, invariants=["ForcedOwnerEverywhere", "RootFromDefaults"], deadlock=False)
+    r = run_tlc("PackDir", cfg, workers=4, timeout=600)
+    ev.tlc(r, "PackDir")
+    if not r["ok"]:
+        print("MODEL-FAILURE: PackDir violates %s" % r["violated"])
+        return None
+    for dev in ("KeepTimeAppliesToRoot", "ForcedOwnerSkipsRoot"):
+        write_cfg(cfg, spec="Spec", constants=dict(C, **{dev: True}), invariants=["ForcedOwnerEverywhere", "RootFromDefaults"], deadlock=False)
+        r = run_tlc("PackDir", cfg, workers=4, timeout=600)
+        ev.tlc(r, "dev PackDir " + dev)
+        if not r["violated"]:
+            print("SELF-CHECK-FAILED: PackDir deviation %s without counterexample" % dev)
+            return None
+    if os.geteuid() != 0:
+        ev.assumptions.append("pack-dir option matrix skipped: not running as root")
+        return 0
+    write_cfg(cfg, spec="Spec", constants=dict(C, Emit=True), invariants=["EmitOK"], deadlock=False)
+    r = run_tlc("PackDir", cfg, workers=2, timeout=600)
+    cases = bpbind.parse_emitted(r["out"])
+    if len(cases) != 384:
+        print("SELF-CHECK-FAILED: PackDir emitted %d option sets" % len(cases))
+        return None
+    src = work + "/pk"
+    os.makedirs(src + "/d")
+    open(src + "/a", "wb").write(b"one\n")
+    os.link(src + "/a", src + "/d/b")
+    os.symlink("a", src + "/l")
+    os.setxattr(src + "/a", "user.t", b"1")
+    os.chown(src + "/a", 7, 8)
+    os.chown(src + "/l", 9, 10, follow_symlinks=False)
+    for p_ in (src + "/d", src):
+        os.chown(p_, 11, 12)
+    for p_ in (src + "/a", src + "/l", src + "/d", src):
+        os.utime(p_, (5000, 5000), follow_symlinks=False)
+
+    def do(i):
+        c = cases[i]
+        o, m = c["o"], c["m"]
+        args = [tools + "/gensquashfs", "-q", "-f", "-c", "gzip", "-D", src]
+        args += (["-k"] if o["k"] else []) + (["--all-root"] if o["own"] == "allroot" else ["--set-uid", "3"] if o["own"] == "u3" else [])
+        args += (["--set-gid", "4"] if o["g4"] else []) + (["-H"] if o["H"] else []) + (["-x"] if o["x"] else []) + (["-o"] if o["o"] else [])
+        sub = ",".join(x for x in ("mtime=99" if o["dm"] == "99" else "", "uid=55" if o["du"] == "55" else "") if x)
+        if sub:
+            args += ["--defaults", sub]
+        out = "%s/pk%d.sqfs" % (work, i)
+        env = {k: v for k, v in os.environ.items() if k != "SOURCE_DATE_EPOCH"}
+        p = subprocess.run(args + [out], capture_output=True, env=env, timeout=60)
+        desc = " ".join(args[6:])
+        try:
+            if p.returncode != 0:
+                return "pack-refuses-valid", "gensquashfs --pack-dir %s: exit %d %s" % (desc, p.returncode, p.stderr.decode(errors="replace")[-150:])
+            t = sqfsimg.load(out).tree()
+            for name, key in ((b"", "root"), (b"a", "a"), (b"d", "d"), (b"d/b", "b"), (b"l", "l")):
+                n, w = t.get(name), m[key]
+                if n is None:
+                    return "fidelity-tree", "gensquashfs --pack-dir %s: /%s missing" % (desc, name.decode())
+                got = (n["uid"], n["gid"], n["mtime"])
+                want = (w["uid"], w["gid"], w["mtime"])
+                if got != want:
+                    return "packdir-options", "gensquashfs --pack-dir %s: /%s has (uid, gid, mtime) %s, specified %s" % (desc, name.decode(), got, want)
+                if key != "root" and bool(n["xattrs"]) != w["xattr"]:
+                    return "packdir-options", "gensquashfs --pack-dir %s: /%s has xattrs %s, specified %s" % (desc, name.decode(), n["xattrs"], w["xattr"])
+            if (t[b"a"]["inum"] == t[b"d/b"]["inum"]) != m["linked"]:
+                return "packdir-options", "gensquashfs --pack-dir %s: a and d/b %s one inode, specified %s" % (desc, "share" if t[b"a"]["inum"] == t[b"d/b"]["inum"] else "do not share", m["linked"])
+            return None
+        finally:
+            if os.path.exists(out):
+                os.unlink(out)
+    n, seen = 0, set()
+    with ThreadPoolExecutor(16) as ex:
+        for res in ex.map(do, range(len(cases))):
+            n += 1
+            if res and res[0] not in seen:
+                seen.add(res[0])
+                rep.violation(res[0], res[1])
+    ev.set("pack_dir_option_sets_replayed", n)
+    shutil.rmtree(src, ignore_errors=True)
+    return n
+
+
 def run(tier):
     ev = Evidence(PID, tier, "exploration")
     rep = Reporter(PID, ev)
@@ -1105,6 +1191,10 @@ def run(tier):
             rep.violation("pack-refuses-valid", "%d distinct ids are representable but gensquashfs refuses them (rc %d)" % (nid + 1, rc))
     os.makedirs(work + "/st", exist_ok=True)
     evaluations += stat_listing_stage(tools, work, rep, ev, rng)
+    pdn = pack_dir_stage(tools, work, rep, ev, tier)
+    if pdn is None:
+        return 2
+    evaluations += pdn
     cn = cli_opts_stage(tools, work, rep, ev, tier, rng)
     if cn is None:
         return 2
